@@ -1,7 +1,7 @@
 """C08 — fast fields return exactly the values indexed: only the code tables of the columnar format."""
 from .. import codetab as ct
-from ..rules import get_body, short, calls_to
-from ..model import provenance, op_local
+from ..rules import get_body, short, calls_to, rule_who_may_call
+from ..model import provenance, op_local, trace_back
 
 C = "tantivy_columnar::"
 PAIRS = [
@@ -14,7 +14,80 @@ PAIRS = [
 ]
 
 
+def _pred_sig(prog, body, local, depth=0):
+    """signature of a boolean: ('Lt', 'x', 5120) for `x < 5120`, following one level of calls to
+    small workspace predicates (is_sparse).  None when it is not a comparison with a constant."""
+    src = trace_back(body, local)
+    if not src:
+        return None
+    last = src[-1]
+    if last[0] == "call" and depth < 2:
+        cb = prog.bodies.get(last[1]) if hasattr(prog, 'bodies') else None
+        if cb is None:
+            return None
+        sigs = set()
+        return _pred_sig(prog, cb, 0, depth + 1)
+    if last[0] == "bin":
+        st = body.stmts(last[2])[last[3]]
+        ops = st.get("o", [])
+        if len(ops) != 2:
+            return None
+        consts = [(i, o.get("v")) for i, o in enumerate(ops) if op_local(o) is None and "v" in o]
+        if len(consts) != 1:
+            return None
+        i, v = consts[0]
+        return (st.get("op"), "const-right" if i == 1 else "const-left", str(v))
+    return None
+
+
+def r2(rep, prog):
+    """the optional index picks sparse vs dense blocks with ONE predicate on both sides: the
+    block bytes carry no tag, the reader re-derives the encoding from the number of values"""
+    R = "C08-R2"
+    rep.rule(R, "writer/reader agreement of the optional index: the serializer's choice between SparseBlockCodec::serialize and DenseBlockCodec::serialize and the deserializer's choice between BlockVariant::Sparse and BlockVariant::Dense are each controlled by one comparison of the block's value count with a constant, and the two comparisons are the same (same operator, same constant, through the shared helper is_sparse or inlined): the encoding is not stored, so a different predicate on one side makes some block undecodable")
+    O = C + "column_index::optional_index::"
+
+    def controlling_sig(body, ta, tb):
+        """signature of a switch that puts blocks ta on its true side only and tb on its false side only"""
+        for sb in body.normal_blocks():
+            tt = body.term(sb)
+            if tt["k"] != "switch" or op_local(tt["on"]) is None:
+                continue
+            arms = dict((v, tg) for v, tg in tt["vals"])
+            f_t = arms.get("0")
+            if f_t is None or len(tt["vals"]) != 1:
+                continue
+            from_true = body.reachable((tt["else"],), blocked=frozenset({sb}))
+            from_false = body.reachable((f_t,), blocked=frozenset({sb}))
+            if all(x in from_true and x not in from_false for x in ta) and all(x in from_false and x not in from_true for x in tb):
+                return _pred_sig(prog, body, op_local(tt["on"])), sb
+        return None, None
+    sigs = {}
+    wb = get_body(rep, prog, R, O + "serialize_optional_index_block")
+    if wb is not None:
+        sp = [b for b, t in wb.calls() if "SparseBlockCodec" in (t.get("res") or t.get("f") or "") and (t.get("f") or "").endswith("::serialize")]
+        de = [b for b, t in wb.calls() if "DenseBlockCodec" in (t.get("res") or t.get("f") or "") and (t.get("f") or "").endswith("::serialize")]
+        sig, sb = controlling_sig(wb, sp, de) if sp and de else (None, None)
+        sigs["writer"] = sig
+        rep.check(sig is not None, R, "the writer encodes sparse iff count <op> constant", "Sparse codec on the true arm, Dense codec on the false arm of %s" % (sig,),
+                  "serialize_optional_index_block does not choose its block codec by one comparison of the count with a constant (sparse sites %d, dense sites %d)" % (len(sp), len(de)), site=wb.span)
+    rb = get_body(rep, prog, R, O + "deserialize_optional_index_block_metadatas")
+    if rb is not None:
+        BV = O + "BlockVariant"
+        sp = [bi for bi in rb.normal_blocks() for st in rb.stmts(bi) if st.get("r") == "agg" and st.get("adt") == BV and st.get("variant") == "Sparse"]
+        de = [bi for bi in rb.normal_blocks() for st in rb.stmts(bi) if st.get("r") == "agg" and st.get("adt") == BV and st.get("variant") == "Dense"]
+        sig, sb = controlling_sig(rb, sp, de) if sp and de else (None, None)
+        sigs["reader"] = sig
+        rep.check(sig is not None, R, "the reader decodes sparse iff count <op> constant", "BlockVariant::Sparse on the true arm, Dense on the false arm of %s" % (sig,),
+                  "deserialize_optional_index_block_metadatas does not derive the block variant from one comparison of the count with a constant (sparse sites %d, dense sites %d)" % (len(sp), len(de)), site=rb.span)
+    if sigs.get("writer") and sigs.get("reader"):
+        rep.check(sigs["writer"] == sigs["reader"], R, "writer and reader use the same sparse/dense predicate", "both: %s" % (sigs["writer"],),
+                  "the optional-index writer chooses the sparse codec when %s but the reader assumes sparse when %s: blocks whose count falls between the two are decoded with the wrong codec"
+                  % (sigs["writer"], sigs["reader"]), site=wb.span)
+
+
 def run(rep, prog, tier):
+    r2(rep, prog)
     R = "C08-R1"
     rep.rule(R, "every (to_code, try_from_code) pair of the columnar format is mutually inverse on all variants; COLUMN_TYPES[i] has discriminant i and covers the enum; ALL_U64_CODEC_TYPES is complete; the current format version is accepted by the reader")
     rep.not_decided += ["codec arithmetic, optional / multivalued indexes, merge (values)"]
